@@ -19,9 +19,10 @@ Init ==
      \/ \E iv \in {15, 30, 60}, dm \in {1380, 1440, 1500}, how \in {"lead", "spread"} : \E k \in 0..(dm \div iv) :
           /\ (k = 0 => how = "lead")
           /\ in = [kind |-> "subdaily", interval |-> iv, dayMin |-> dm, total |-> dm \div iv, missing |-> Miss(dm \div iv, k, how)]
-     \/ \E iv \in {30, 60}, dm \in {1380, 1440, 1500}, how \in {"lead", "spread"} : \E k \in 0..(dm \div iv) :
+     \/ \E iv \in {30, 60}, dm \in {1380, 1440, 1500}, how \in {"lead", "spread"}, mh \in {0, 6} : \E k \in 0..(dm \div iv) :
           /\ (k = 0 => how = "lead")
-          /\ in = [kind |-> "temp", interval |-> iv, dayMin |-> dm, total |-> dm \div iv, missing |-> Miss(dm \div iv, k, how)]
+          /\ (mh = 6 => how = "spread" \/ k = 0)       \* mh: the local hour at which the meter is read (its day runs from mh:00 to mh:00)
+          /\ in = [kind |-> "temp", interval |-> iv, dayMin |-> dm, total |-> dm \div iv, missing |-> Miss(dm \div iv, k, how), mh |-> mh]
   /\ out = [res |-> "pending"] /\ pc = "call"
 Call == pc = "call" /\ out' = [res |-> "modelled"] /\ pc' = "done" /\ UNCHANGED in
 Next == Call
